@@ -29,6 +29,10 @@ type Op struct {
 // TaskSpec is a sequence of ops on one fresh parser.
 type TaskSpec struct {
 	Ops []Op `json:"ops"`
+	// Env is set in the process environment while this task runs (sequential
+	// execution only) and restored afterwards: the environment is an input of
+	// an evaluation and may differ between evaluations of one process.
+	Env map[string]string `json:"env,omitempty"`
 }
 
 // Switch is one recorded hand-over of the cooperative scheduler.
